@@ -277,6 +277,13 @@ def callee_pops(arch, plat, cc):
     return arch == 0 and (cc in (1, 2, 3) or (cc == 4 and plat == 1))
 
 
+def entry_slot(cmd, seed):
+    """which of the 64 admissible entry stack pointers (natural alignment apart) the scenario of this frame uses: shared by the
+    interpreter and the proven-machine run of the check, so that both judge the SAME entry state (a defect that depends on the
+    residue of the entry sp modulo a larger alignment is then seen, or not seen, by both)"""
+    return zlib.crc32(("%s|%d|entry-sp" % (cmd, seed)).encode()) % 64
+
+
 def judge(cmd, ans, seed):
     """Returns list of (key, description)."""
     c = cmd.split()
@@ -310,7 +317,7 @@ def judge(cmd, ans, seed):
         m.regs[3][i] = rng.getrandbits(64)
     natural = r["natural"]
     # entry sp: exactly the promised alignment (natural, minus the return address), any residue modulo larger alignments
-    sp0 = (0x7FFF0000 if arch == 0 else 0x7FFFFFFF0000) - natural * rng.randrange(0, 64) - ras
+    sp0 = (0x7FFF0000 if arch == 0 else 0x7FFFFFFF0000) - natural * entry_slot(cmd, seed) - ras
     m.regs[0][spid] = sp0
     ra = rng.getrandbits(8 * ws - 1) | 1
     if arch == 2:
@@ -329,6 +336,23 @@ def judge(cmd, ans, seed):
         above = [a for a in m.written if a >= sp0]
         if above:
             out.append((key("prolog-writes-into-caller-frame"), desc("the prolog stores at entry sp %+d: the return address / the caller's frame (at or above the entry sp) is overwritten" % (min(above) - sp0))))
+        # frame conditions of the prolog (C07_frame_conditions_x86 / _a64): no register except sp, the frame pointer and the SA
+        # register changes (arguments reach the body); AArch64: memory is written only inside the push/pop save area
+        for g in range(4):
+            for i in sorted(m.regs[g].keys()):
+                if g == 0 and (i == spid or (has_fp and i == fp) or i == r["sa_reg"]):
+                    continue
+                if m.regs[g][i] != entry[g][i]:
+                    out.append((key("prolog-clobbers-register"), desc("the prolog changes register group %d id %d (%#x -> %#x): only sp, the frame pointer and the SA register may change, arguments must reach the body" % (g, i, entry[g][i], m.regs[g][i]))))
+                    break
+        if arch == 2:
+            below = [a for a in m.written if a < sp0 - r["pp_size"]]
+            if below:
+                out.append((key("prolog-writes-outside-save-area"), desc("the prolog stores at entry sp %+d, below the %d-byte save area" % (min(below) - sp0, r["pp_size"]))))
+        else:
+            below = [a for a in m.written if a < spb + r["ex_off"]]
+            if below:
+                out.append((key("prolog-writes-outside-save-area"), desc("the prolog stores at body sp %+d, below the extra-register save area at +%d (call area / local area / below sp)" % (min(below) - spb, r["ex_off"]))))
         # ---- inside the body
         fa = r["final_align"]
         uses_stack = lsize > 0 or csize > 0 or r["ex_size"] > 0 or bool(attrs & 2)
@@ -378,7 +402,7 @@ def judge(cmd, ans, seed):
                 out.append((key(k), desc("stack arguments are at %#x, [fp + %d] is %#x" % (args_base, r["sa_from_sa"], got))))
         # ---- the body: poison everything the frame declares as the body's
         body_written = set()
-        for a in range(spb, spb + csize):
+        for a in range(spb, spb + csize) if csize <= 4096 else list(range(spb, spb + 2048)) + list(range(spb + csize - 2048, spb + csize)):
             m.mem[a] = 0xA5; body_written.add(a)
         for a in range(spb + r["local_off"], spb + r["local_off"] + lsize) if lsize <= 4096 else \
                 list(range(spb + r["local_off"], spb + r["local_off"] + 2048)) + list(range(spb + r["local_off"] + lsize - 2048, spb + r["local_off"] + lsize)):
@@ -393,9 +417,23 @@ def judge(cmd, ans, seed):
                         continue
                     m.regs[g][i] = rng.getrandbits(128 if g == 1 else 8 * ws if g == 0 else 64)
         m.written.clear()
+        before_epilog = [dict(g) for g in m.regs]
         for s in r["E"]:
             mn, ops = parse_inst(s)
             m.step(mn, ops)
+        # frame conditions of the epilog: no memory write at all; only sp, the frame pointer and the saved registers change
+        # (return values leave the function as the body left them)
+        if m.written:
+            out.append((key("epilog-writes-memory"), desc("the epilog stores at entry sp %+d" % (min(m.written) - sp0))))
+        for g in range(4):
+            for i in sorted(m.regs[g].keys()):
+                if g == 0 and (i == spid or (has_fp and i == fp)):
+                    continue
+                if ((r["dirty"][g] & r["preserved"][g]) >> i) & 1:
+                    continue
+                if m.regs[g][i] != before_epilog[g][i]:
+                    out.append((key("epilog-clobbers-unsaved-register"), desc("the epilog changes register group %d id %d, which the frame did not save (%#x -> %#x): return values must leave as the body left them" % (g, i, before_epilog[g][i], m.regs[g][i]))))
+                    break
         if m.retto is None:
             out.append((key("no-return"), desc("epilog does not return")))
         elif m.retto != ra:
